@@ -26,6 +26,7 @@ type Gen struct {
 	Rng   *rand.Rand
 	Wt    Weights
 	queue []*Op
+	after func() // continuation of a macro, run when the queue is empty
 }
 
 func (g *Gen) pct(p int) bool { return g.Rng.Intn(100) < p }
@@ -291,6 +292,11 @@ type choice struct {
 
 // Next returns the next operation (height = current block height of the world).
 func (g *Gen) Next(height uint32) *Op {
+	if len(g.queue) == 0 && g.after != nil {
+		f := g.after
+		g.after = nil
+		f()
+	}
 	if len(g.queue) > 0 {
 		o := g.queue[0]
 		g.queue = g.queue[1:]
@@ -352,6 +358,37 @@ func (g *Gen) Next(height uint32) *Op {
 		req, tag := g.target(KApproveCandidate)
 		if g.queue = g.Round(KApproveCandidate, g.maybeVariant(req), "round-"+tag, true); len(g.queue) == 0 {
 			return nil
+		}
+		return g.Next(height)
+	})
+	add(2*w.Node, func() *Op {
+		// a member leaves and comes back (second incarnation of its candidacy), leaves again, and the
+		// validators then run an approval round for the candidacy that was already applied
+		if g.M.active() <= 4 {
+			return nil
+		}
+		ms := g.members(StCand, StCons)
+		mem := ms[g.Rng.Intn(len(ms))]
+		who := g.W.ActorOf(mem.Owner)
+		if who == nil {
+			return nil
+		}
+		k := mem.Str
+		epoch := func() []*Op {
+			return []*Op{{Kind: KAdvance, Delta: 1}, {Kind: KCommitDpos, OpSig: true, Tag: "operator/returning-cycle"}}
+		}
+		q := []*Op{{Kind: KQuitNode, Actor: who, Node: k, Tag: "returning-cycle"}}
+		q = append(q, epoch()...)
+		q = append(q, &Op{Kind: KRegisterCandidate, Actor: who, Node: k, Tag: "returning-key"})
+		g.queue = q
+		g.after = func() {
+			// evaluated when the queue above has run: validators may have changed
+			q := g.Round(KApproveCandidate, k, "returning-cycle", false)
+			q = append(q, epoch()...)
+			q = append(q, &Op{Kind: KQuitNode, Actor: who, Node: k, Tag: "returning-cycle"})
+			q = append(q, epoch()...)
+			g.queue = q
+			g.after = func() { g.queue = g.Round(KApproveCandidate, k, "returning/applied-earlier", true) }
 		}
 		return g.Next(height)
 	})
@@ -444,6 +481,9 @@ func (g *Gen) Next(height uint32) *Op {
 			return &Op{Kind: KAdvance, Delta: 1}
 		case x < 92:
 			return &Op{Kind: KAdvance, Delta: uint32(2 + g.Rng.Intn(5))}
+		}
+		if x >= 99 {
+			return &Op{Kind: KAdvance, Delta: 4294967295 - height - uint32(g.Rng.Intn(4)), Tag: "to-the-last-heights"}
 		}
 		return &Op{Kind: KAdvance, Delta: uint32(95 + g.Rng.Intn(10)), Tag: "epoch-due"}
 	})
